@@ -12,6 +12,9 @@ def format_number(n, n_type):
             before_decimal = sn.index('.')
             desired_total_digits = 7
             n = round(n, ndigits=desired_total_digits-before_decimal)
+    if n == 0:
+        # there is no negative zero in QB's output
+        n = abs(n)
     s = str(n)
     if s.endswith('.0'):
         s = s[:-2]
